@@ -150,7 +150,7 @@ ADDENDA = {
     "C07": "Also: mixed bfloat16/float32 parameter groups (forced in every 10th case), communication-dtype quantisation fingerprint of the applied update / parameter, thorough tier: real torch FSDP/HSDP wrapping on gloo processes (metadata compiled by the repo from the real flat parameters).",
     "C08": "Also: mixed-dtype groups and the communication-dtype fingerprint as in C07; thorough tier: parameters produced by the real fully_shard (FSDP2) on gloo processes.",
     "C09": "Also: negative loads per key, per sub-tree and into differently grouped optimizers; DDP (DTensor) state on simulated ranks.",
-    "C10": "Also: epsilon dominating A, the zero matrix, structured inputs (unflagged diagonal, permuted / block diagonal, c*I), a non-default exponent multiplier in the config for the fast-vs-general comparison.",
+    "C10": "Also: inside the region where rounding cannot excuse non-convergence (cond*n*u*100 < tolerance, budget >= 100 iterations) the accuracy bound is judged whatever flag is reported; epsilon dominating A, the zero matrix, structured inputs (unflagged diagonal, permuted / block diagonal, c*I), a non-default exponent multiplier in the config for the fast-vs-general comparison.",
     "C11": "Also: roots below 1, rejection cases with both values of is_diagonal, structured inputs.",
     "C12": "Also: stopping-rule monitor as in C03, estimates with exact zeros (identity / permutation / block-orthogonal), zero rows, forced fixed-point instances, NaN-safe comparisons.",
     "C13": "Also: injected failures of any Exception type (plain Exception subclass, MemoryError, AssertionError, KeyError), per-group tolerance overrides, float16 storage overflow poison mode.",
